@@ -257,15 +257,15 @@ func genCLI(seed uint64, prop, tier, mode string) *Plan {
 				// an empty list element names no lint: "," / " " / "a,,b" / a trailing comma
 				st.Sel.NameFilter = nil
 				var list []string
-				switch g.Intn(4) {
+				// (only lists that name nothing at all: a list with a stray comma next to real names is a spelling
+				// a tolerant tool might accept, and the property does not decide that)
+				switch g.Intn(3) {
 				case 0:
 					list = []string{"", ""}
 				case 1:
 					list = []string{" "}
-				case 2:
-					list = []string{pick(g, realNames), "", pick(g, realNames)}
 				default:
-					list = []string{pick(g, realNames), ""}
+					list = []string{" ", "", " "}
 				}
 				if g.Chance(0.6) {
 					st.Sel.IncludeNames = list
